@@ -1035,11 +1035,24 @@ fn run_consolidate(rng: &mut Rng_, ids: &mut Ids, out: &mut Out, n: usize) {
         let mut before = vec![];
         let mut sizes = vec![];
         let mut names: HashMap<String, String> = HashMap::new(); // file name -> sid
+        let mut prev_model: Option<Model> = None;
         for j in 0..k {
             let mut m = random_model(rng, &pool, &format!("C{i}s{j}"), 3, 3, 3);
             while m.xorbs.is_empty() && m.files.is_empty() {
                 m = random_model(rng, &pool, &format!("C{i}s{j}"), 3, 3, 3);
             }
+            // now and then a shard whose records are a part of the previous shard's: merging the two gives the content
+            // (and so the name) of one of the inputs
+            if let Some(prev) = prev_model.as_ref().filter(|_| rng.gen_bool(0.3)) {
+                let prev: &Model = prev;
+                let mut sub = Model { sid: m.sid.clone(), ..Default::default() };
+                sub.xorbs = prev.xorbs.iter().filter(|_| rng.gen_bool(0.6)).cloned().collect();
+                sub.files = prev.files.iter().filter(|_| rng.gen_bool(0.6)).cloned().collect();
+                if !(sub.xorbs.is_empty() && sub.files.is_empty()) {
+                    m = sub;
+                }
+            }
+            prev_model = Some(m.clone());
             // mostly as flushed; sometimes without lookup tables (as the minimal reader writes a shard out: the
             // footer's lookup counts are 0 although the shard has records)
             let p = if rng.gen_bool(0.3) {
